@@ -188,3 +188,14 @@ def ob_b(ob):
             if lo <= hi:
                 slices.append(make_slice("T%d_%d" % (cfg, k), cfg, (lo, hi), second=(0, 39), ignore=ignore, timeout_s=1500))
     _run(ob, slices)
+
+
+# ---- shared obligation: a resumed surface-hopping run equals the uninterrupted one only if the nonadiabatic rows due after the restart are written at their absolute steps ----
+from . import C11 as _C11_mod  # noqa: E402
+
+
+@obligation(PID, "c", title="[shared with C11.d] " + [e for e in __import__("engine.ob", fromlist=["REGISTRY"]).REGISTRY["C11"] if e[1] is _C11_mod.ob_d][0][3])
+def ob_c_shared(ob):
+    """a resumed surface-hopping run equals the uninterrupted one only if the nonadiabatic rows due after the restart are written at their absolute steps"""
+    ob.note("this obligation is the one registered as C11.d; it is also decided here because a resumed surface-hopping run equals the uninterrupted one only if the nonadiabatic rows due after the restart are written at their absolute steps")
+    _C11_mod.ob_d(ob)
